@@ -294,6 +294,8 @@ PLANS["C03"] = {
         T("general", "general", (30, 600), ["InvC03"]),
         # DropCollection among collections whose names are prefixes of each other
         T("catalog", "catalog", (30, 600), ["InvC03"]),
+        # bulk operations over documents whose _id an earlier update tried to re-spell or rewrite
+        T("ids", "ids", (20, 400), ["InvC03"]),
         EDG("edges", ["InvC03"], ops=["UpdateFunc", "Delete", "DropCollection"], states=(30, 0), reads=(0, 0), writes=(20, 40)),
     ],
 }
@@ -387,6 +389,8 @@ PLANS["C18"] = {
         LAWS("paths"),
         AUX("norm", "norm", (1500, 40000)),
         AUX("docpath", "docpath", (400, 10000)),
+        # Insert converts what it stores, not what it was given: the caller's document reads the same afterwards
+        T("rich-args", "rich", (15, 300), ["InvNoPanic"]),
     ],
 }
 
